@@ -106,6 +106,14 @@ def _as_number(case, v):
             import numpy as np
 
             return np.int64(int(v))
+        if t == "npnarrow":
+            # the narrowest numpy integer type that holds the value (a sample-rate or bin-frequency table stored compactly)
+            import numpy as np
+
+            iv = int(v)
+            for ty in (np.uint8, np.int16, np.uint16, np.int32):
+                if np.iinfo(ty).min <= iv <= np.iinfo(ty).max:
+                    return ty(iv)
     if t == "npfloat":
         import numpy as np
 
@@ -145,9 +153,7 @@ def check_roundtrip_scale(case):
     if case.get("whole"):
         # a whole-number scale value inside the image, possibly passed as an int
         w = math.floor(s) if math.floor(s) >= s_lo else math.ceil(s)
-        if s_lo <= w <= s_hi and not (spec["alias"] == "octave" and w < 0):
-            # (a negative numpy-integer exponent is rejected by numpy itself; octave scale values are only
-            # negative for origins below the 1e-10 Hz floor)
+        if s_lo <= w <= s_hi:
             s = _as_number(case, float(w))
     _other_first(case, lo)
     f = call("scale_to_hertz", sc.scale_to_hertz, s)
@@ -277,7 +283,7 @@ def check_params(case):
 
 
 def clauses(tier):
-    nt = st.sampled_from(["float", "float", "float", "int", "npint", "npfloat"])
+    nt = st.sampled_from(["float", "float", "float", "int", "npint", "npfloat", "npnarrow"])
     oth = st.one_of(st.none(), st.none(), st.sampled_from([0.5, 7.0, 100.0]))
     near = st.one_of(st.none(), st.none(), st.fixed_dictionaries({
         "k": st.integers(1, 16), "e": st.one_of(log_uniform(-14, -3), log_uniform(-14, -3).map(lambda v: -v))}))
@@ -293,7 +299,7 @@ def clauses(tier):
             "scale value s = s(lo) + u (s(1e5) - s(lo)) or within 1e-15..1e-2 of a Bark break; non-trivial = interior point",
             lambda: st.one_of(
                 st.fixed_dictionaries({"scale": _scales(), "u": floats(0.0, 1.0), "whole": st.booleans(),
-                                       "numtype": st.sampled_from(["float", "int", "npint", "npfloat"]),
+                                       "numtype": st.sampled_from(["float", "int", "npint", "npfloat", "npnarrow"]),
                                        "other": st.one_of(st.none(), st.none(), st.sampled_from([0.5, 7.0, 100.0]))}),
                 st.fixed_dictionaries(
                     {
